@@ -202,20 +202,32 @@ Qed.
 (* empty items of an object stream, the environment's view of the fetches                           *)
 (* ------------------------------------------------------------------------------------------------ *)
 
-Lemma skip_empty_none l : skip_empty l = None -> concat l = [].
+Lemma hit_pred_0 : hit 0 = false /\ pred 0 = 0.
+Proof. split; reflexivity. Qed.
+
+Lemma skip_empty_spec l : forall cn,
+  match skip_empty cn l with
+  | FGot c r => c <> [] /\ concat l = c ++ concat r /\ (forall x, In x r -> In x l)
+  | FEnd => concat l = []
+  | FCancel r => concat l = concat r /\ (forall x, In x r -> In x l)
+  end.
 Proof.
-  induction l as [|c r IH]; [reflexivity|]. cbn [skip_empty]. destruct c; [|discriminate].
-  intros H. cbn. apply IH, H.
+  induction l as [|c0 r0 IH]; intros cn; cbn [skip_empty]; destruct (hit cn).
+  - split; [reflexivity|auto].
+  - reflexivity.
+  - split; [reflexivity|auto].
+  - destruct c0 as [|x c0].
+    + specialize (IH (pred cn)). destruct (skip_empty (pred cn) r0) as [c r| |r].
+      * destruct IH as (H1 & H2 & H3). refine (conj H1 (conj H2 _)). intros y Hy. right. apply H3, Hy.
+      * exact IH.
+      * destruct IH as (H2 & H3). refine (conj H2 _). intros y Hy. right. apply H3, Hy.
+    + refine (conj _ (conj eq_refl _)); [discriminate|]. intros y Hy. now right.
 Qed.
 
-Lemma skip_empty_some l : forall c r, skip_empty l = Some (c, r) ->
-  c <> [] /\ concat l = c ++ concat r /\ (forall x, In x r -> In x l).
+Lemma skip_empty_0_not_cancelled l : forall r, skip_empty 0 l <> FCancel r.
 Proof.
-  induction l as [|c0 r0 IH]; intros c r H; [discriminate|]. cbn [skip_empty] in H. destruct c0 as [|x c0].
-  - destruct (IH c r H) as (H1 & H2 & H3). refine (conj H1 (conj _ _)).
-    + cbn. exact H2.
-    + intros y Hy. right. apply H3, Hy.
-  - injection H as <- <-. refine (conj _ (conj eq_refl _)); [discriminate|]. intros y Hy. now right.
+  induction l as [|c0 r0 IH]; intros r; cbn [skip_empty hit Nat.eqb]; [discriminate|].
+  destruct c0; [apply IH|discriminate].
 Qed.
 
 Lemma fetch_arrivals_nofeed k : forall kd sr,
@@ -253,6 +265,7 @@ Definition until_post (kd : kind) (b : list Z) (sr : list (list Z)) (d : list Z)
     | RNotFound => buf s' = b ++ lg /\ ~ occurs d (buf s') /\ (m <= Z.of_nat (length (buf s')))%Z
     | RIncomplete => buf s' = b ++ lg /\ src s' = [] /\
                      exists k0, k = S k0 /\ lg = fetch_arrivals k0 kd sr fs ++ hd [] (skipn k0 fs)
+    | RCancelled => buf s' = b ++ lg
     | _ => False
     end.
 
@@ -278,15 +291,16 @@ Proof.
       replace (skipn (S k0) fs) with (skipn k0 (tl fs)) by (destruct fs; [now rewrite skipn_nil|reflexivity]).
       reflexivity.
     + exact H5.
+    + exact H5.
 Qed.
 
-Lemma until_loop_spec fuel : forall s d m off fs s' r lg,
+Lemma until_loop_spec fuel : forall cn s d m off fs s' r lg,
   (forall j, j < off -> ~ occurs_at d (buf s) j) ->
   measure (src s) < fuel ->
-  until_loop false fuel s d m off fs = (s', r, lg) ->
+  until_loop false fuel cn s d m off fs = (s', r, lg) ->
   knd s' = knd s /\ until_post (knd s) (buf s) (src s) d m fs s' r lg.
 Proof.
-  induction fuel as [|f IH]; intros s d m off fs s' r lg Hinv Hm H; [lia|].
+  induction fuel as [|f IH]; intros cn s d m off fs s' r lg Hinv Hm H; [lia|].
   cbn [until_loop] in H.
   destruct (find_from d off (buf s)) as [i|] eqn:F.
   - injection H as <- <- <-. split; [reflexivity|]. exists 0.
@@ -314,8 +328,13 @@ Proof.
       refine (conj eq_refl (conj eq_refl (conj _ (conj (fun h => h) (conj eq_refl (conj Hno _)))))).
       * intros k Hk; lia.
       * lia.
-    + destruct (pull (knd s) default_max (src s)) as [[c r0]|] eqn:P.
-      * destruct (until_loop false f (mk (knd s) ((buf s ++ hd [] fs) ++ c) r0) d m
+    + destruct (hit cn) eqn:Hcn.
+      { injection H as <- <- <-. split; [reflexivity|]. exists 0.
+        cbn [fetch_rest fetch_arrivals]. rewrite !app_nil_r.
+        refine (conj eq_refl (conj eq_refl (conj _ (conj (fun h => h) eq_refl)))).
+        intros k Hk; lia. }
+      destruct (pull (knd s) default_max (src s)) as [[c r0]|] eqn:P.
+      * destruct (until_loop false f (pred cn) (mk (knd s) ((buf s ++ hd [] fs) ++ c) r0) d m
                              (length (buf s) + 1 - length d) (tl fs)) as [[s1 r1] lg1] eqn:R.
         injection H as <- <- <-.
         pose proof (pull_measure _ _ _ _ _ P default_max_pos) as Hms.
@@ -324,7 +343,7 @@ Proof.
         { cbn [buf]. intros j Hj. rewrite <- app_assoc. apply search_offset_complete; [|exact Hj].
           intros j' Hj'. apply Hno. exists j'. exact Hj'. }
         assert (Hm' : measure (src (mk (knd s) ((buf s ++ hd [] fs) ++ c) r0)) < f) by (cbn [src]; lia).
-        destruct (IH _ d m _ (tl fs) s1 r1 lg1 Hinv' Hm' R) as (Hk & Hp).
+        destruct (IH _ _ d m _ (tl fs) s1 r1 lg1 Hinv' Hm' R) as (Hk & Hp).
         cbn [knd buf src] in Hk, Hp. split; [exact Hk|].
         apply (until_post_cons _ _ _ _ r0); [exact Hp | exact P | exact Hno | lia].
       * injection H as <- <- <-. split; [reflexivity|]. exists 1.
@@ -337,21 +356,22 @@ Qed.
 
 (* the offset is an optimisation only: receive_until behaves exactly as if it searched the whole buffer each time,
    whatever is fed while it waits *)
-Lemma until_loop_naive fuel : forall s d m off fs,
+Lemma until_loop_naive fuel : forall cn s d m off fs,
   (forall j, j < off -> ~ occurs_at d (buf s) j) ->
-  until_loop false fuel s d m off fs = until_naive fuel s d m fs.
+  until_loop false fuel cn s d m off fs = until_naive fuel cn s d m fs.
 Proof.
-  induction fuel as [|f IH]; intros s d m off fs Hinv; [reflexivity|].
+  induction fuel as [|f IH]; intros cn s d m off fs Hinv; [reflexivity|].
   cbn [until_loop until_naive]. rewrite (find_from_offset d off (buf s) Hinv).
   destruct (find_from d 0 (buf s)) as [i|] eqn:F; [reflexivity|].
   destruct (m <=? Z.of_nat (length (buf s)))%Z; [reflexivity|].
+  destruct (hit cn); [reflexivity|].
   destruct (pull (knd s) default_max (src s)) as [[c r0]|]; [|reflexivity].
   rewrite IH; [reflexivity|]. cbn [buf]. intros j Hj. rewrite <- app_assoc.
   apply search_offset_complete; [|exact Hj].
   intros j' Hj'. apply (find_from_none _ _ _ F j'); [lia|exact Hj'].
 Qed.
 
-Theorem until_offset_sound s d m fs : step_log s (Until d m fs) = until_naive (fuel_of s) s d m fs.
+Theorem until_offset_sound s d m fs : step_log s (Until d m fs) = until_naive (fuel_of s) 0 s d m fs.
 Proof. unfold step_log. cbn [step_gen]. apply until_loop_naive. intros j Hj; lia. Qed.
 
 (* ------------------------------------------------------------------------------------------------ *)
@@ -367,30 +387,34 @@ Definition exactly_post (b : list Z) (sr : list (list Z)) (n : Z) (s' : st) (r :
                 buf s' = skipn (cut n (b ++ pulled)) (b ++ pulled) /\
                 (n <= Z.of_nat (length (b ++ pulled)))%Z
   | RIncomplete => buf s' = b ++ pulled /\ src s' = [] /\ (Z.of_nat (length (buf s')) < n)%Z
+  | RCancelled => buf s' = b ++ pulled
   | _ => False
   end.
 
-Lemma exactly_loop_spec fuel : forall s n s' r lg,
+Lemma exactly_loop_spec fuel : forall cn s n s' r lg,
   measure (src s) < fuel ->
-  exactly_loop fuel s n = (s', r, lg) ->
+  exactly_loop fuel cn s n = (s', r, lg) ->
   knd s' = knd s /\ exactly_post (buf s) (src s) n s' r lg.
 Proof.
-  induction fuel as [|f IH]; intros s n s' r lg Hm H; [lia|].
+  induction fuel as [|f IH]; intros cn s n s' r lg Hm H; [lia|].
   cbn [exactly_loop] in H.
   destruct (n - Z.of_nat (length (buf s)) <=? 0)%Z eqn:E.
   - injection H as <- <- <-. split; [reflexivity|].
     unfold exactly_post. cbn [src buf]. rewrite !app_nil_r.
     refine (conj eq_refl (conj (fun h => h) (conj (or_introl eq_refl) (conj eq_refl (conj eq_refl _))))). lia.
-  - set (ask := match knd s with KByte => Z.to_nat (n - Z.of_nat (length (buf s))) | KObject => default_max end) in H.
+  - destruct (hit cn) eqn:Hcn.
+    { injection H as <- <- <-. split; [reflexivity|]. unfold exactly_post. rewrite !app_nil_r.
+      exact (conj eq_refl (conj (fun h => h) (conj (or_introl eq_refl) eq_refl))). }
+    set (ask := match knd s with KByte => Z.to_nat (n - Z.of_nat (length (buf s))) | KObject => default_max end) in H.
     assert (Hask : 1 <= ask).
     { unfold ask. destruct (knd s); [lia|apply default_max_pos]. }
     destruct (pull (knd s) ask (src s)) as [[c r0]|] eqn:P.
-    + destruct (exactly_loop f (mk (knd s) (buf s ++ c) r0) n) as [[s1 r1] lg1] eqn:R.
+    + destruct (exactly_loop f (pred cn) (mk (knd s) (buf s ++ c) r0) n) as [[s1 r1] lg1] eqn:R.
       injection H as <- <- <-.
       pose proof (pull_spec _ _ _ _ _ P) as Hc.
       pose proof (pull_measure _ _ _ _ _ P Hask) as Hms.
       assert (Hm' : measure (src (mk (knd s) (buf s ++ c) r0)) < f) by (cbn [src]; lia).
-      destruct (IH _ n s1 r1 lg1 Hm' R) as (Hk & H1 & H2 & H3 & H4).
+      destruct (IH _ _ n s1 r1 lg1 Hm' R) as (Hk & H1 & H2 & H3 & H4).
       cbn [buf src knd] in Hk, H1, H2, H3, H4.
       split; [exact Hk|]. unfold exactly_post.
       refine (conj _ (conj _ (conj _ _))).
@@ -403,6 +427,27 @@ Proof.
       refine (conj eq_refl (conj (fun h => h) (conj (or_introl eq_refl) (conj eq_refl (conj P _))))). lia.
 Qed.
 
+(* without a cancellation request no call ends in RCancelled *)
+Lemma exactly_loop_0 fuel : forall s n, snd (fst (exactly_loop fuel 0 s n)) <> RCancelled.
+Proof.
+  induction fuel as [|f IH]; intros s n; cbn [exactly_loop hit Nat.eqb pred]; [discriminate|].
+  destruct (n - Z.of_nat (length (buf s)) <=? 0)%Z; [discriminate|].
+  destruct (pull (knd s) _ (src s)) as [[c r0]|]; [|discriminate].
+  specialize (IH (mk (knd s) (buf s ++ c) r0) n).
+  destruct (exactly_loop f 0 (mk (knd s) (buf s ++ c) r0) n) as [[s1 r1] l1]. exact IH.
+Qed.
+
+Lemma until_loop_0 fuel : forall s d m off fs, snd (fst (until_loop false fuel 0 s d m off fs)) <> RCancelled.
+Proof.
+  induction fuel as [|f IH]; intros s d m off fs; cbn [until_loop hit Nat.eqb pred]; [discriminate|].
+  destruct (find_from d off (buf s)); [discriminate|].
+  destruct (m <=? Z.of_nat (length (buf s)))%Z; [discriminate|].
+  destruct (pull (knd s) default_max (src s)) as [[c r0]|]; [|discriminate].
+  match goal with |- context [until_loop false f 0 ?a d m ?b ?c] =>
+    specialize (IH a d m b c); destruct (until_loop false f 0 a d m b c) as [[s1 r1] l1] end.
+  exact IH.
+Qed.
+
 (* ------------------------------------------------------------------------------------------------ *)
 (* one step: conservation and the arrival log                                                       *)
 (* ------------------------------------------------------------------------------------------------ *)
@@ -413,9 +458,114 @@ Proof. symmetry. apply firstn_skipn. Qed.
 Definition log_spec (s : st) (o : op) (s' : st) (lg : list Z) : Prop :=
   match o with
   | Feed d => lg = d /\ src s' = src s
-  | Until d m fs => exists k, src s' = fetch_rest k (knd s) (src s) /\ lg = fetch_arrivals k (knd s) (src s) fs
+  | Until d m fs | CUntil _ d m fs =>
+      exists k, src s' = fetch_rest k (knd s) (src s) /\ lg = fetch_arrivals k (knd s) (src s) fs
   | _ => concat (src s) = lg ++ concat (src s')
   end.
+
+Definition conserve (s : st) (consumed : list Z) (s' : st) (r : res) (lg : list Z) : Prop :=
+  knd s' = knd s /\ r <> RFuel /\
+  (chunks_nonempty (src s) -> chunks_nonempty (src s')) /\
+  buf s ++ lg = consumed ++ buf s' /\
+  (exists pulled, concat (src s) = pulled ++ concat (src s')).
+
+Lemma conserve_same s r : r <> RFuel -> conserve s [] s r [].
+Proof.
+  intros Hr. refine (conj eq_refl (conj Hr (conj (fun h => h) (conj _ _)))).
+  - now rewrite app_nil_r.
+  - exists []. reflexivity.
+Qed.
+
+Lemma receive_conservation cn s n s' r lg : do_receive false cn s n = (s', r, lg) ->
+  conserve s (consumed_of (Receive n) r) s' r lg /\ concat (src s) = lg ++ concat (src s').
+Proof.
+  unfold do_receive. intros H. destruct (n <? 1)%Z eqn:En1.
+  { injection H as <- <- <-. split; [apply conserve_same; discriminate|reflexivity]. }
+  destruct (buf s) as [|b0 b] eqn:Eb.
+  - destruct (knd s) eqn:Ek.
+    + destruct (hit cn).
+      { injection H as <- <- <-. split; [apply conserve_same; discriminate|reflexivity]. }
+      destruct (pull KByte (Z.to_nat n) (src s)) as [[c r0]|] eqn:P.
+      * injection H as <- <- <-. cbn [consumed_of]. pose proof (pull_spec _ _ _ _ _ P) as Hc.
+        split; [|exact Hc]. unfold conserve. cbn [knd src buf]. rewrite ?Ek, ?Eb.
+        refine (conj eq_refl (conj _ (conj _ (conj _ _)))).
+        -- discriminate.
+        -- intros Hs. assert (Hn1 : 1 <= Z.to_nat n) by lia. apply (pull_nonempty _ _ _ _ _ Hs Hn1 P).
+        -- cbn. now rewrite !app_nil_r.
+        -- exists c. exact Hc.
+      * injection H as <- <- <-. split; [apply conserve_same; discriminate|reflexivity].
+    + pose proof (skip_empty_spec (src s) cn) as S.
+      cbn [negb] in H. destruct (skip_empty cn (src s)) as [c r0| |r0].
+      * destruct S as (Hc0 & Hc & Hin).
+        assert (Hne : chunks_nonempty (src s) -> chunks_nonempty r0)
+          by (intros Hs x Hx; apply Hs, Hin, Hx).
+        destruct (n <? Z.of_nat (length c))%Z; injection H as <- <- <-; cbn [consumed_of]; (split; [|exact Hc]);
+          unfold conserve; cbn [knd src buf]; rewrite ?Ek, ?Eb.
+        -- refine (conj eq_refl (conj _ (conj Hne (conj _ _)))).
+           ++ discriminate.
+           ++ cbn [app]. rewrite app_nil_r. apply firstn_cut_split.
+           ++ exists c. exact Hc.
+        -- refine (conj eq_refl (conj _ (conj Hne (conj _ _)))).
+           ++ discriminate.
+           ++ cbn. now rewrite !app_nil_r.
+           ++ exists c. exact Hc.
+      * injection H as <- <- <-. cbn [consumed_of]. split; [|rewrite S; reflexivity].
+        unfold conserve. cbn [knd src buf]. rewrite ?Ek, ?Eb.
+        refine (conj eq_refl (conj _ (conj _ (conj _ _)))).
+        -- discriminate.
+        -- intros _ x [].
+        -- reflexivity.
+        -- exists []. rewrite S. reflexivity.
+      * destruct S as (Hc & Hin). injection H as <- <- <-. cbn [consumed_of]. split; [|exact Hc].
+        unfold conserve. cbn [knd src buf]. rewrite ?Ek, ?Eb.
+        refine (conj eq_refl (conj _ (conj _ (conj _ _)))).
+        -- discriminate.
+        -- intros Hs x Hx. apply Hs, Hin, Hx.
+        -- reflexivity.
+        -- exists []. exact Hc.
+  - injection H as <- <- <-. cbn [consumed_of]. split; [|reflexivity].
+    unfold conserve. cbn [knd src buf]. rewrite ?Ek, ?Eb.
+    refine (conj eq_refl (conj _ (conj (fun h => h) (conj _ _)))).
+    + discriminate.
+    + rewrite !app_nil_r. apply firstn_cut_split.
+    + exists []. reflexivity.
+Qed.
+
+Lemma exactly_conservation cn s n s' r lg : do_exactly false cn s n = (s', r, lg) ->
+  conserve s (consumed_of (Exactly n) r) s' r lg /\ concat (src s) = lg ++ concat (src s').
+Proof.
+  unfold do_exactly. cbn [negb andb]. intros H. destruct (n <? 0)%Z eqn:En.
+  { injection H as <- <- <-. split; [apply conserve_same; discriminate|reflexivity]. }
+  destruct (exactly_loop_spec (fuel_of s) cn s n s' r lg) as (Hk & H1 & H2 & H3 & H4);
+    [unfold fuel_of; lia | exact H |].
+  split; [|exact H1].
+  refine (conj Hk (conj _ (conj H2 (conj _ _)))).
+  - intros ->. exact H4.
+  - destruct r; try contradiction; cbn [consumed_of].
+    + destruct H4 as (-> & -> & _). rewrite app_nil_r. apply firstn_cut_split.
+    + destruct H4 as (-> & _). reflexivity.
+    + rewrite H4. reflexivity.
+  - exists lg. exact H1.
+Qed.
+
+Lemma until_conservation cn s d m fs s' r lg :
+  until_loop false (fuel_of s) cn s d m 0 fs = (s', r, lg) ->
+  conserve s (consumed_of (Until d m fs) r) s' r lg /\
+  exists k, src s' = fetch_rest k (knd s) (src s) /\ lg = fetch_arrivals k (knd s) (src s) fs.
+Proof.
+  intros H.
+  destruct (until_loop_spec (fuel_of s) cn s d m 0 fs s' r lg) as (Hk & k & H1 & H2 & H3 & H4 & H5);
+    [intros j Hj; lia | unfold fuel_of; lia | exact H |].
+  split; [|exists k; split; assumption].
+  refine (conj Hk (conj _ (conj H4 (conj _ _)))).
+  - intros ->. exact H5.
+  - destruct r; try contradiction; cbn [consumed_of].
+    + destruct H5 as (-> & _). now rewrite <- app_assoc.
+    + destruct H5 as (-> & _). reflexivity.
+    + destruct H5 as (-> & _). reflexivity.
+    + rewrite H5. reflexivity.
+  - rewrite H1. apply fetch_rest_suffix.
+Qed.
 
 Theorem step_conservation s o s' r lg : step_log s o = (s', r, lg) ->
   knd s' = knd s /\ r <> RFuel /\
@@ -424,86 +574,26 @@ Theorem step_conservation s o s' r lg : step_log s o = (s', r, lg) ->
   (exists pulled, concat (src s) = pulled ++ concat (src s')) /\
   log_spec s o s' lg.
 Proof.
-  unfold step_log, log_spec. destruct o as [n|n|d m fs|d]; cbn [step_gen]; intros H.
-  - (* receive *)
-    unfold do_receive in H. destruct (n <? 1)%Z eqn:En1.
-    { injection H as <- <- <-. refine (conj eq_refl (conj _ (conj (fun h => h) (conj _ (conj _ _))))).
-      - discriminate.
-      - cbn. now rewrite app_nil_r.
-      - exists []. reflexivity.
-      - reflexivity. }
-    destruct (buf s) as [|b0 b] eqn:Eb.
-    + destruct (knd s) eqn:Ek.
-      * destruct (pull KByte (Z.to_nat n) (src s)) as [[c r0]|] eqn:P.
-        -- injection H as <- <- <-. cbn [knd src buf consumed_of]. pose proof (pull_spec _ _ _ _ _ P) as Hc.
-           refine (conj eq_refl (conj _ (conj _ (conj _ (conj _ Hc))))).
-           ++ discriminate.
-           ++ intros Hs. assert (Hn1 : 1 <= Z.to_nat n) by lia. apply (pull_nonempty _ _ _ _ _ Hs Hn1 P).
-           ++ cbn. now rewrite !app_nil_r.
-           ++ exists c. exact Hc.
-        -- injection H as <- <- <-. refine (conj Ek (conj _ (conj (fun h => h) (conj _ (conj _ _))))).
-           ++ discriminate.
-           ++ cbn. rewrite Eb. reflexivity.
-           ++ exists []. reflexivity.
-           ++ reflexivity.
-      * cbn [negb] in H. destruct (skip_empty (src s)) as [[c r0]|] eqn:P.
-        -- destruct (skip_empty_some _ _ _ P) as (Hc0 & Hc & Hin).
-           assert (Hne : chunks_nonempty (src s) -> chunks_nonempty r0)
-             by (intros Hs x Hx; apply Hs, Hin, Hx).
-           destruct (n <? Z.of_nat (length c))%Z; injection H as <- <- <-; cbn [knd src buf consumed_of].
-           ++ refine (conj eq_refl (conj _ (conj Hne (conj _ (conj _ Hc))))).
-              ** discriminate.
-              ** cbn [app]. rewrite app_nil_r. apply firstn_cut_split.
-              ** exists c. exact Hc.
-           ++ refine (conj eq_refl (conj _ (conj Hne (conj _ (conj _ Hc))))).
-              ** discriminate.
-              ** cbn. now rewrite !app_nil_r.
-              ** exists c. exact Hc.
-        -- injection H as <- <- <-. cbn [knd src buf consumed_of]. pose proof (skip_empty_none _ P) as Hc.
-           refine (conj eq_refl (conj _ (conj _ (conj _ (conj _ _))))).
-           ++ discriminate.
-           ++ intros _ x [].
-           ++ reflexivity.
-           ++ exists []. rewrite Hc. reflexivity.
-           ++ rewrite Hc. reflexivity.
-    + injection H as <- <- <-. cbn [knd src buf consumed_of].
-      refine (conj eq_refl (conj _ (conj (fun h => h) (conj _ (conj _ _))))).
-      * discriminate.
-      * rewrite !app_nil_r. apply firstn_cut_split.
-      * exists []. reflexivity.
-      * reflexivity.
-  - (* receive_exactly *)
-    unfold do_exactly in H. cbn [negb andb] in H. destruct (n <? 0)%Z eqn:En.
-    { injection H as <- <- <-. refine (conj eq_refl (conj _ (conj (fun h => h) (conj _ (conj _ _))))).
-      - discriminate.
-      - cbn. now rewrite app_nil_r.
-      - exists []. reflexivity.
-      - reflexivity. }
-    destruct (exactly_loop_spec (fuel_of s) s n s' r lg) as (Hk & H1 & H2 & H3 & H4);
-      [unfold fuel_of; lia | exact H |].
-    refine (conj Hk (conj _ (conj H2 (conj _ (conj _ H1))))).
-    + intros ->. exact H4.
-    + destruct r; try contradiction; cbn [consumed_of].
-      * destruct H4 as (-> & -> & _). rewrite app_nil_r. apply firstn_cut_split.
-      * destruct H4 as (-> & _). reflexivity.
-    + exists lg. exact H1.
-  - (* receive_until *)
-    destruct (until_loop_spec (fuel_of s) s d m 0 fs s' r lg) as (Hk & k & H1 & H2 & H3 & H4 & H5);
-      [intros j Hj; lia | unfold fuel_of; lia | exact H |].
-    refine (conj Hk (conj _ (conj H4 (conj _ (conj _ _))))).
-    + intros ->. exact H5.
-    + destruct r; try contradiction; cbn [consumed_of].
-      * destruct H5 as (-> & _). now rewrite <- app_assoc.
-      * destruct H5 as (-> & _). reflexivity.
-      * destruct H5 as (-> & _). reflexivity.
-    + rewrite H1. apply fetch_rest_suffix.
-    + exists k. split; assumption.
-  - (* feed_data *)
-    injection H as <- <- <-. refine (conj eq_refl (conj _ (conj (fun h => h) (conj _ (conj _ _))))).
-    + discriminate.
-    + reflexivity.
-    + exists []. reflexivity.
-    + split; reflexivity.
+  assert (Flat : forall c, conserve s c s' r lg -> log_spec s o s' lg ->
+                 knd s' = knd s /\ r <> RFuel /\ (chunks_nonempty (src s) -> chunks_nonempty (src s')) /\
+                 buf s ++ lg = c ++ buf s' /\ (exists pulled, concat (src s) = pulled ++ concat (src s')) /\
+                 log_spec s o s' lg).
+  { intros c (A & B & C & D & E) L. exact (conj A (conj B (conj C (conj D (conj E L))))). }
+  unfold step_log. destruct o as [n|n|d m fs|d|k n|k n|k d m fs]; cbn [step_gen]; intros H.
+  - destruct (receive_conservation _ _ _ _ _ _ H) as [C L]. exact (Flat _ C L).
+  - destruct (exactly_conservation _ _ _ _ _ _ H) as [C L]. exact (Flat _ C L).
+  - destruct (until_conservation _ _ _ _ _ _ _ _ H) as [C L]. exact (Flat _ C L).
+  - injection H as <- <- <-. apply (Flat []); [|split; reflexivity].
+    refine (conj eq_refl (conj _ (conj (fun h => h) (conj eq_refl _)))); [discriminate|exists []; reflexivity].
+  - destruct k as [|k].
+    + injection H as <- <- <-. apply (Flat []); [apply conserve_same; discriminate|reflexivity].
+    + destruct (receive_conservation _ _ _ _ _ _ H) as [C L]. exact (Flat _ C L).
+  - destruct k as [|k].
+    + injection H as <- <- <-. apply (Flat []); [apply conserve_same; discriminate|reflexivity].
+    + destruct (exactly_conservation _ _ _ _ _ _ H) as [C L]. exact (Flat _ C L).
+  - destruct k as [|k].
+    + injection H as <- <- <-. apply (Flat []); [apply conserve_same; discriminate|]. exists 0. split; reflexivity.
+    + destruct (until_conservation _ _ _ _ _ _ _ _ H) as [C L]. exact (Flat _ C L).
 Qed.
 
 Theorem step_never_out_of_fuel s o : snd (step s o) <> RFuel.
@@ -544,9 +634,11 @@ Qed.
 
 Lemma log_no_feed s o s' lg : no_feed o = true -> log_spec s o s' lg -> lg ++ concat (src s') = concat (src s).
 Proof.
-  unfold log_spec. destruct o as [n|n|d m fs|d]; cbn [no_feed]; intros Hn H; try (symmetry; exact H).
+  unfold log_spec. destruct o as [n|n|d m fs|d|c n|c n|c d m fs]; cbn [no_feed]; intros Hn H;
+    try (symmetry; exact H).
   - destruct fs; [|discriminate]. destruct H as (k & -> & ->). apply fetch_arrivals_nofeed.
   - discriminate.
+  - destruct fs; [|discriminate]. destruct H as (k & -> & ->). apply fetch_arrivals_nofeed.
 Qed.
 
 Lemma arrived_no_feed : forall ops s,
@@ -595,10 +687,48 @@ Theorem buf_fail_consumes_nothing s o s' r lg : step_log s o = (s', r, lg) -> fa
 Proof.
   intros H F. destruct (step_conservation _ _ _ _ _ H) as (_ & _ & _ & Hb & Hp & Hl).
   assert (Hcons : consumed_of o r = []).
-  { destruct F as [ -> | [ -> | [ -> | -> ] ] ]; reflexivity. }
+  { destruct F as [ -> | [ -> | [ -> | [ -> | -> ] ] ] ]; reflexivity. }
   rewrite Hcons in Hb. cbn [app] in Hb.
   refine (conj Hcons (conj (eq_sym Hb) (conj Hp _))).
   intros Hn. rewrite <- Hb, <- app_assoc, (log_no_feed _ _ _ _ Hn Hl). reflexivity.
+Qed.
+
+(* a CANCELLED call is a failed call: for every state reached by any op sequence (earlier cancellations, feeds during
+   waits, empty items ... included) a call that ends in RCancelled hands out nothing; the chunks it had already fetched
+   are in the buffer, in order; buffer ++ not-yet-fetched stream is unchanged *)
+Theorem buf_cancelled_consumes_nothing ops s0 o s' lg :
+  step_log (final step s0 ops) o = (s', RCancelled, lg) ->
+  consumed_of o RCancelled = [] /\
+  buf s' = buf (final step s0 ops) ++ lg /\
+  (exists pulled, concat (src (final step s0 ops)) = pulled ++ concat (src s')) /\
+  (no_feed o = true ->
+   buf s' ++ concat (src s') = buf (final step s0 ops) ++ concat (src (final step s0 ops))).
+Proof.
+  intros H. apply (buf_fail_consumes_nothing _ _ _ _ _ H). unfold failed. auto 6.
+Qed.
+
+(* cancellation at entry (k = 0) touches nothing at all; calls outside a cancelled scope never end in RCancelled *)
+Theorem buf_entry_cancel s n d m fs :
+  step_log s (CReceive 0 n) = (s, RCancelled, []) /\
+  step_log s (CExactly 0 n) = (s, RCancelled, []) /\
+  step_log s (CUntil 0 d m fs) = (s, RCancelled, []).
+Proof. repeat split. Qed.
+
+Theorem buf_uncancelled_never_cancelled s o :
+  match o with CReceive _ _ | CExactly _ _ | CUntil _ _ _ _ => True | _ => snd (step s o) <> RCancelled end.
+Proof.
+  unfold step, step_log. destruct o as [n|n|d m fs|d|k n|k n|k d m fs]; cbn [step_gen]; try exact I.
+  - pose proof (skip_empty_0_not_cancelled (src s)) as NC.
+    unfold do_receive. cbn [hit Nat.eqb negb]. destruct (n <? 1)%Z; [discriminate|].
+    destruct (buf s); [|discriminate]. destruct (knd s).
+    + destruct (pull KByte (Z.to_nat n) (src s)) as [[c r0]|]; discriminate.
+    + destruct (skip_empty 0 (src s)) as [c r0| |r0].
+      * destruct (n <? Z.of_nat (length c))%Z; discriminate.
+      * discriminate.
+      * exfalso. apply (NC r0). reflexivity.
+  - unfold do_exactly. cbn [negb andb]. destruct (n <? 0)%Z; [discriminate|]. apply exactly_loop_0.
+  - apply until_loop_0.
+  - discriminate.
 Qed.
 
 (* receive(n): for EVERY chunking of an object stream, empty items included *)
@@ -623,14 +753,16 @@ Proof.
            refine (conj eq_refl (conj _ _)); [|congruence].
            destruct c; [congruence|cbn [length] in *; lia].
         -- injection H as <- <-. right. apply pull_none in P. rewrite P. auto.
-      * destruct (skip_empty (src s)) as [[c r0]|] eqn:P.
-        -- destruct (skip_empty_some _ _ _ P) as (Hc & _ & _).
+      * pose proof (skip_empty_spec (src s) 0) as S. pose proof (skip_empty_0_not_cancelled (src s)) as NC.
+        destruct (skip_empty 0 (src s)) as [c r0| |r0].
+        -- destruct S as (Hc & _ & _).
            destruct (n <? Z.of_nat (length c))%Z eqn:En; cbn [fst] in H; injection H as <- <-; left.
            ++ exists (firstn (Z.to_nat n) c). refine (conj eq_refl (conj _ _)); [|congruence].
               rewrite firstn_length. lia.
            ++ exists c. refine (conj eq_refl (conj _ _)); [|congruence].
               destruct c; [congruence|cbn [length] in *; lia].
-        -- cbn [fst] in H. injection H as <- <-. right. apply skip_empty_none in P. auto.
+        -- cbn [fst] in H. injection H as <- <-. right. auto.
+        -- exfalso. apply (NC r0). reflexivity.
     + cbn [fst] in H. injection H as <- <-. left. exists (firstn (Z.to_nat n) (b0 :: b)).
       refine (conj eq_refl (conj _ _)).
       * rewrite firstn_length. cbn [length]. lia.
@@ -648,10 +780,11 @@ Proof.
   unfold step, step_log. cbn [step_gen]. unfold do_exactly. cbn [negb andb]. intros H. split.
   { intros Hn. destruct (n <? 0)%Z eqn:E; [|lia]. cbn [fst] in H. injection H as <- <-. auto. }
   intros Hn. destruct (n <? 0)%Z eqn:E; [lia|].
-  destruct (exactly_loop (fuel_of s) s n) as [[s1 r1] lg] eqn:L. cbn [fst] in H. injection H as <- <-.
-  destruct (exactly_loop_spec (fuel_of s) s n s1 r1 lg) as (Hk & H1 & H2 & H3 & H4);
+  destruct (exactly_loop (fuel_of s) 0 s n) as [[s1 r1] lg] eqn:L. cbn [fst] in H. injection H as <- <-.
+  destruct (exactly_loop_spec (fuel_of s) 0 s n s1 r1 lg) as (Hk & H1 & H2 & H3 & H4);
     [unfold fuel_of; lia | exact L |].
-  destruct r1; try contradiction.
+  pose proof (exactly_loop_0 (fuel_of s) s n) as NC. rewrite L in NC. cbn [fst snd] in NC.
+  destruct r1; try contradiction; try congruence.
   - destruct H4 as (Hx & Hb & Hlen).
     assert (Hcut : cut n (buf s ++ lg) = Z.to_nat n).
     { unfold cut. destruct (0 <=? n)%Z eqn:E0; [reflexivity|lia]. }
@@ -674,7 +807,7 @@ Theorem buf_until_spec s d m fs s' r lg : step_log s (Until d m fs) = (s', r, lg
   until_post (knd s) (buf s) (src s) d m fs s' r lg.
 Proof.
   intros H. unfold step_log in H. cbn [step_gen] in H.
-  apply (until_loop_spec (fuel_of s) s d m 0 fs s' r lg); [intros j Hj; lia | unfold fuel_of; lia | exact H].
+  apply (until_loop_spec (fuel_of s) 0 s d m 0 fs s' r lg); [intros j Hj; lia | unfold fuel_of; lia | exact H].
 Qed.
 
 (* receive_until never includes the delimiter: the result is what precedes the FIRST occurrence in arrival order, the
@@ -806,6 +939,15 @@ Example ex_until_feed_then_eof :
   step_log (init KByte [[97]]) (Until [59] 9 [[]; [98; 59]])
   = (mk KByte [97; 98; 59] [], RIncomplete, [97; 98; 59]) /\
   snd (step (mk KByte [97; 98; 59] []) (Until [59] 9 [])) = RBytes [97; 98].
+Proof. vm_compute. auto. Qed.
+
+(* cancellation: the second fetch of receive_exactly(5) is cancelled - the first chunk stays buffered; in an already
+   cancelled scope (k = 1) a call that needs no fetch completes, as HEAD has no checkpoint of its own *)
+Example ex_cancelled :
+  step_log (init KByte [[97]; [98]; [99]]) (CExactly 2 5) = (mk KByte [97] [[98]; [99]], RCancelled, [97]) /\
+  step_log (init KObject [[]; [97]]) (CReceive 2 4) = (mk KObject [] [[97]], RCancelled, []) /\
+  step_log (mk KByte [97; 59] [[98]]) (CReceive 1 1) = (mk KByte [59] [[98]], RBytes [97], []) /\
+  step_log (mk KByte [97] [[98; 59]; [99]]) (CUntil 2 [59; 10] 9 []) = (mk KByte [97; 98; 59] [[99]], RCancelled, [98; 59]).
 Proof. vm_compute. auto. Qed.
 
 (* a failing call keeps what it read in the buffer; the next call gets it *)
